@@ -161,7 +161,7 @@ def gen_module(rng, modname, with_async_gen=False):
     return "".join(src), funcs
 
 
-def make_workload(rng, funcs, n_steps, vals=None):
+def make_workload(rng, funcs, n_steps, vals=None, abandon=False):
     """a workload is a list of steps; generators are advanced in random interleavings"""
     vals = vals or Vals(rng)
     steps = []
@@ -180,6 +180,9 @@ def make_workload(rng, funcs, n_steps, vals=None):
             steps.append(("call", f["call"], a, k))
         if rng.random() < 0.5:
             steps.append(("gen_advance", rng.randrange(8)))
+        if abandon and rng.random() < 0.15:
+            # drop a live generator without exhausting it: its frame is released and its memory may be reused by a later call
+            steps.append(("gen_abandon", rng.randrange(8)))
     steps.append(("gen_drain",))
     return steps
 
@@ -212,6 +215,20 @@ def run_workload(mod, steps):
                     except StopIteration as e:
                         live.remove(g)
                         out.append(("stop", repr(e.value)))
+                else:
+                    out.append(("ok", "nothing live"))
+            elif s[0] == "gen_abandon":
+                if live:
+                    import gc
+                    g = live.pop(s[1] % len(live))
+                    fr = getattr(g, "gi_frame", None)
+                    tok = fr.f_locals.get("_t") if fr is not None else None
+                    del fr
+                    del g
+                    gc.collect()
+                    if tok is not None and _r.REC is not None:
+                        _r.REC.closed(tok)
+                    out.append(("ok", "abandoned"))
                 else:
                     out.append(("ok", "nothing live"))
             elif s[0] == "gen_drain":
